@@ -145,7 +145,7 @@ def run_case(text, enc='utf-8', vk='base', joins=True, full=True):
     """Everything C10/C11 observe about one input (full=False: only what C10 looks at)."""
     rec = {'ref': False, 'in': cps(text), 'enc': enc, 'vk': vk,
            'oc': 'none', 'exc': '', 'uoc': 'none', 'net': False, 'url': [],
-           'oc2': 'none', 'url2': [], 'acc': 'none', 'accfail': [], 'log': 'none', 'join': 'none', 'joinfail': []}
+           'oc2': 'none', 'url2': [], 'oc3': 'none', 'url3': [], 'acc': 'none', 'accfail': [], 'log': 'none', 'join': 'none', 'joinfail': []}
     old_handler = signal.signal(signal.SIGVTALRM, _alarm)
     old_limit = sys.getrecursionlimit()
     signal.setitimer(signal.ITIMER_VIRTUAL, WATCHDOG_S)
@@ -193,6 +193,14 @@ def _run_case(rec, text, enc, joins, full):
                     c2 = components(info2, rec)
                     for k in ('sch', 'hn', 'port', 'path', 'query'):
                         rec[k + '2'] = c2[k]
+                # the normalised URL is ASCII: normalising it again WITHOUT knowing the document encoding (what the
+                # crawler does with the URLs it stored) must change nothing either
+                oc3, info3, _ = guarded(lambda: URLInfo.parse(url))
+                if oc3 == 'value':
+                    oc3, url3, _ = guarded(lambda: info3.url)
+                rec['oc3'] = oc3
+                if oc3 == 'value':
+                    rec['url3'] = cps(url3)
     if not full:
         return
     # the logging variant used on scraped links never raises
